@@ -1,5 +1,6 @@
 import E3fpVerif.Model.Fprint
 import E3fpVerif.Lemmas.Uniq
+import E3fpVerif.Lemmas.FpAux
 namespace E3fpVerif.Props.C10
 open E3fpVerif
 
@@ -12,5 +13,217 @@ theorem indices_rt_bit (f : Fp) (hk : f.kind = .bit) (hwf : f.WF) :
     rw [List.any_eq_false]; intro i hi; simp; exact hb i hi
   rw [this, uniq_of_strictAsc _ hs]
   cases f; simp_all
+
+/-- the stored counts survive the class's value setter (`int(v)` for counts; always true for floats) -/
+def Stable (f : Fp) : Prop := ∀ p ∈ f.cnt, coerce f.kind p.2 = p.2
+
+theorem stable_float (f : Fp) (hk : f.kind = .float) : Stable f := by
+  intro p _; rw [hk]; rfl
+
+/-- index-array + counts round trip for count / float fingerprints -/
+theorem indices_rt_count (f : Fp) (hk : f.kind ≠ .bit) (hwf : f.WF) (hst : Stable f) :
+    mkCount f.kind (some f.idx) (some f.cnt) f.bits f.level = .ok f := by
+  rw [mkCount_some_some_eq _ _ _ _ _ hwf.2.1 (by rw [hwf.2.2.2 hk]; intro x; rfl),
+    uniq_of_strictAsc _ hwf.1]
+  have := map_count_self f hk hwf f.kind hst
+  simp only [Fp.count_of_ne_bit f hk] at this
+  rw [this]
+
+/-- `from_indices` round trip, every class -/
+theorem indices_rt (f : Fp) (hwf : f.WF) (hst : Stable f) :
+    fromIndices f.kind f.idx (if f.kind = .bit then none else some f.cnt) f.bits f.level = .ok f := by
+  unfold fromIndices
+  split
+  · rename_i hk; exact indices_rt_bit f hk hwf
+  · rename_i hk
+    rw [if_neg (fun e => hk e)]
+    exact indices_rt_count f (fun e => hk e) hwf hst
+
+/-! ## bitstring -/
+
+theorem toBitstring_length (f : Fp) : f.toBitstring.length = f.bits := by
+  simp [Fp.toBitstring]
+
+/-- the set positions of the bitstring are exactly the indices -/
+theorem toBitstring_get (f : Fp) (i : Nat) (hi : i < f.toBitstring.length) :
+    f.toBitstring[i] = decide (i ∈ f.idx) := by
+  simp [Fp.toBitstring]
+
+theorem toBitstring_on (f : Fp) (hwf : f.WF) :
+    (f.toBitstring.zipIdx.filter (fun p => p.1)).map Prod.snd = f.idx := by
+  unfold Fp.toBitstring
+  rw [filter_zipIdx_map_range (fun i => decide (i ∈ f.idx)) (fun b => b)]
+  simp only [List.map_map, Function.comp_def, List.map_id']
+  exact filter_range_eq f.idx f.bits _ hwf.1 hwf.2.1 (fun i _ => by simp)
+
+/-- `from_bitstring(to_bitstring())` -/
+theorem bitstring_rt (f : Fp) (hk : f.kind = .bit) (hwf : f.WF) :
+    fromBitstring .bit f.toBitstring f.level = .ok f := by
+  unfold fromBitstring fromIndices
+  simp only
+  rw [toBitstring_on f hwf, toBitstring_length]
+  exact indices_rt_bit f hk hwf
+
+/-! ## dense vectors -/
+
+theorem toDense_length (f : Fp) : f.toDense.length = f.bits := by
+  simp [Fp.toDense]
+
+theorem toDense_get (f : Fp) (i : Nat) (hi : i < f.toDense.length) : f.toDense[i] = f.count i := by
+  simp [Fp.toDense]
+
+/-- all stored counts are non-zero (always so for a bit fingerprint) -/
+def NonZero (f : Fp) : Prop := ∀ p ∈ f.cnt, p.2 ≠ 0
+
+theorem count_ne_zero_iff (f : Fp) (hwf : f.WF) (hnz : NonZero f) (i : Nat) : f.count i ≠ 0 ↔ i ∈ f.idx := by
+  constructor
+  · intro h; apply Decidable.by_contra; intro hi; exact h (Fp.count_of_not_mem f hwf i hi)
+  · intro hi
+    by_cases hk : f.kind = .bit
+    · rw [Fp.count_of_bit f hk, if_pos hi]; grind
+    · rw [Fp.count_of_ne_bit f hk]
+      have hkeys := hwf.2.2.2 hk
+      rw [← hkeys] at hi
+      obtain ⟨p, hp, rfl⟩ := List.mem_map.1 hi
+      rw [lookupQ_of_mem f.cnt (by rw [hkeys]; exact strictAsc_nodup _ hwf.1) p hp]
+      exact hnz p hp
+
+/-- the non-zero positions of the dense vector are exactly the indices -/
+theorem toDense_nz (f : Fp) (hwf : f.WF) (hnz : NonZero f) :
+    f.toDense.zipIdx.filter (fun p => decide (p.1 ≠ 0)) = f.idx.map (fun i => (f.count i, i)) := by
+  unfold Fp.toDense
+  rw [filter_zipIdx_map_range f.count (fun v => decide (v ≠ 0))]
+  rw [filter_range_eq f.idx f.bits _ hwf.1 hwf.2.1
+    (fun i _ => by simpa using count_ne_zero_iff f hwf hnz i)]
+
+/-- `from_vector(to_vector(sparse=False))`, bit class -/
+theorem dense_rt_bit (f : Fp) (hk : f.kind = .bit) (hwf : f.WF) :
+    fromDense .bit f.toDense f.level = .ok f := by
+  have hnz : NonZero f := by intro p hp; rw [hwf.2.2.1 hk] at hp; cases hp
+  unfold fromDense fromIndices
+  simp only
+  rw [toDense_nz f hwf hnz, toDense_length]
+  simp only [List.map_map, Function.comp_def, List.map_id']
+  exact indices_rt_bit f hk hwf
+
+/-- `from_vector(to_vector(sparse=False))`, count and float classes: needs every stored count non-zero
+(a stored zero is indistinguishable from an absent position in the dense vector) -/
+theorem dense_rt_count (f : Fp) (hk : f.kind ≠ .bit) (hwf : f.WF) (hnz : NonZero f) (hst : Stable f) :
+    fromDense f.kind f.toDense f.level = .ok f := by
+  unfold fromDense fromIndices
+  simp only
+  rw [toDense_nz f hwf hnz, toDense_length]
+  simp only [List.map_map, Function.comp_def, List.map_id']
+  have hc : f.idx.map (fun i => (i, f.count i)) = f.cnt := by
+    have := map_count_self f hk hwf .float (fun _ _ => rfl)
+    simpa [coerce] using this
+  rw [hc]
+  exact indices_rt_count f hk hwf hst
+
+/-- every class at once -/
+theorem dense_rt (f : Fp) (hwf : f.WF) (hnz : NonZero f) (hst : Stable f) :
+    fromDense f.kind f.toDense f.level = .ok f := by
+  by_cases hk : f.kind = .bit
+  · have := dense_rt_bit f hk hwf; rwa [← hk] at this
+  · exact dense_rt_count f hk hwf hnz hst
+
+/-- the non-zero hypothesis of `dense_rt_count` cannot be dropped -/
+theorem dense_loses_zero_count :
+    let f : Fp := ⟨.float, 4, 0, [1], [(1, 0)]⟩
+    f.WF ∧ fromDense .float f.toDense f.level = .ok ⟨.float, 4, 0, [], []⟩ := by
+  refine ⟨⟨by decide, by decide, by simp, by simp⟩, ?_⟩
+  simp [fromDense, fromIndices, Fp.toDense, Fp.count, lookupQ, List.range, List.range.loop, mkCount, uniq]
+
+/-! ## sparse vectors -/
+
+/-- `from_vector(to_vector(sparse=True))`, count and float classes: explicit zeros are stored, so no
+non-zero hypothesis is needed -/
+theorem sparse_rt_count (f : Fp) (hk : f.kind ≠ .bit) (hwf : f.WF) (hst : Stable f) :
+    fromSparse f.kind f.cnt f.bits f.level = .ok f := by
+  unfold fromSparse fromIndices
+  rw [hwf.2.2.2 hk]
+  split
+  · rename_i e; exact absurd e hk
+  · exact indices_rt_count f hk hwf hst
+
+/-- bit class: the stored entries are the indices with value 1 -/
+theorem sparse_rt_bit (f : Fp) (hk : f.kind = .bit) (hwf : f.WF) :
+    fromSparse .bit (f.idx.map (fun i => (i, 1))) f.bits f.level = .ok f := by
+  unfold fromSparse fromIndices
+  simp only [List.map_map, Function.comp_def, List.map_id']
+  exact indices_rt_bit f hk hwf
+
+/-- every class at once, through `fp.counts` -/
+theorem sparse_rt (f : Fp) (hwf : f.WF) (hst : Stable f) :
+    fromSparse f.kind f.countsDict f.bits f.level = .ok f := by
+  by_cases hk : f.kind = .bit
+  · have := sparse_rt_bit f hk hwf
+    unfold Fp.countsDict; rw [hk]; exact this
+  · have := sparse_rt_count f hk hwf hst
+    unfold Fp.countsDict
+    split
+    · rename_i e; exact absurd e hk
+    · exact this
+
+/-! ## RDKit bit vectors -/
+
+/-- below 2^31 bits `to_rdkit` loses nothing but the level -/
+theorem rdkit_rt (f : Fp) (hk : f.kind = .bit) (hwf : f.WF) (hb : f.bits < 2 ^ 31) :
+    fromRdkit .bit f.toRdkit.1 f.toRdkit.2 = .ok { f with level := -1 } := by
+  have hmin : min f.bits (2 ^ 31 - 1) = f.bits := by omega
+  have hmap : f.idx.map (· % (2 ^ 31 - 1)) = f.idx := by
+    conv => rhs; rw [← List.map_id f.idx]
+    apply List.map_congr_left
+    intro i hi
+    have := hwf.2.1 i hi
+    simp only [id]
+    exact Nat.mod_eq_of_lt (by omega)
+  unfold fromRdkit Fp.toRdkit fromIndices
+  simp only
+  rw [hmin, hmap, uniq_of_strictAsc _ hwf.1, if_neg (by omega)]
+  have hwf' : ({ f with level := -1 } : Fp).WF := hwf
+  exact indices_rt_bit { f with level := -1 } hk hwf'
+
+/-- at the default length 2^32 the RDKit round trip does not give the fingerprint back: RDKit's
+`ExplicitBitVect` holds 2^31 - 1 bits, and only the exact value 2^32 - 1 is mapped back to 2^32 -/
+theorem rdkit_loses_length :
+    let f : Fp := ⟨.bit, 2 ^ 32, -1, [], []⟩
+    f.WF ∧ fromRdkit .bit f.toRdkit.1 f.toRdkit.2 = .ok ⟨.bit, 2 ^ 31 - 1, -1, [], []⟩ := by
+  refine ⟨⟨by simp [StrictAsc], by simp, by simp, by simp⟩, ?_⟩
+  rfl
+
+/-! ## pickling -/
+
+theorem pickle_rt (f : Fp) (hwf : f.WF) : Fp.pickleRoundTrip f = f := by
+  unfold Fp.pickleRoundTrip
+  split
+  · rfl
+  · rename_i hk
+    rw [hwf.2.2.2 (fun e => hk e), uniq_of_strictAsc _ hwf.1]
+
+/-! ## non-vacuity -/
+
+def exB : Fp := ⟨.bit, 8, 5, [1, 3], []⟩
+def exC : Fp := ⟨.count, 8, 5, [1, 3], [(1, 2), (3, 1)]⟩
+theorem exB_wf : exB.WF := ⟨by decide, by decide, by simp [exB], by simp [exB]⟩
+theorem exC_wf : exC.WF := ⟨by decide, by decide, by simp [exC], by simp [exC]⟩
+theorem exC_stable : Stable exC := by
+  intro p hp; simp only [exC, List.mem_cons, List.not_mem_nil, or_false] at hp
+  rcases hp with rfl | rfl
+  · exact coerce_natCast .count 2
+  · exact coerce_natCast .count 1
+theorem exC_nz : NonZero exC := by
+  intro p hp; simp only [exC, List.mem_cons, List.not_mem_nil, or_false] at hp
+  rcases hp with rfl | rfl <;> grind
+
+example : fromBitstring .bit exB.toBitstring exB.level = .ok exB := bitstring_rt exB rfl exB_wf
+example : exB.toBitstring = [false, true, false, true, false, false, false, false] := by decide
+example : fromDense .bit exB.toDense exB.level = .ok exB := dense_rt_bit exB rfl exB_wf
+example : fromDense .count exC.toDense exC.level = .ok exC := dense_rt_count exC (by simp [exC]) exC_wf exC_nz exC_stable
+example : fromSparse .count exC.cnt exC.bits exC.level = .ok exC := sparse_rt_count exC (by simp [exC]) exC_wf exC_stable
+example : mkCount .count (some exC.idx) (some exC.cnt) 8 5 = .ok exC := indices_rt_count exC (by simp [exC]) exC_wf exC_stable
+example : fromRdkit .bit exB.toRdkit.1 exB.toRdkit.2 = .ok { exB with level := -1 } :=
+  rdkit_rt exB rfl exB_wf (by decide)
+example : Fp.pickleRoundTrip exC = exC := pickle_rt exC exC_wf
 
 end E3fpVerif.Props.C10
